@@ -81,3 +81,6 @@ tok_rt!(c01_q_tok_begin_bytes, 1, Token::BeginBytes, first = 0x5f);
 tok_rt!(c01_q_tok_begin_string, 1, Token::BeginString, first = 0x7f);
 tok_rt!(c01_q_tok_begin_array, 1, Token::BeginArray, first = 0x9f);
 tok_rt!(c01_q_tok_begin_map, 1, Token::BeginMap, first = 0xbf);
+// Simple values 20..=31: today they round-trip as tokens through the two-byte form `f8 xx`
+// (that this form is not well-formed per RFC 8949 is the known finding recorded under C03).
+tok_rt!(c01_q_tok_simple_20_31, 2, Token::Simple({ let x: u8 = kani::any(); kani::assume(x >= 20 && x <= 31); x }), first = 0xf8);
